@@ -166,6 +166,35 @@ def collect_files(dir_path: Path, recursive: bool = True) -> list[Path]:
     return _collect_files_fast(dir_path, recursive)
 
 
+def _verif_tap(site: str, rule_id: str, file_path: object, exc: BaseException) -> None:
+    """Verification hook H1 (off unless THAILINT_VERIF is set): record a swallowed exception.
+
+    Appends one JSON line {site, rule, file, exc_type, exc_msg} to $THAILINT_VERIF_FAILLOG.
+    Add-only: never raises and changes no behaviour.
+    """
+    import os
+
+    if not os.environ.get("THAILINT_VERIF"):
+        return
+    log_path = os.environ.get("THAILINT_VERIF_FAILLOG")
+    if not log_path:
+        return
+    try:
+        import json
+
+        record = {
+            "site": site,
+            "rule": rule_id,
+            "file": str(file_path),
+            "exc_type": type(exc).__name__,
+            "exc_msg": str(exc)[:300],
+        }
+        with open(log_path, "a", encoding="utf-8") as handle:
+            handle.write(json.dumps(record) + "\n")
+    except Exception:  # nosec B110 - the hook must never disturb the run
+        pass
+
+
 def _lint_file_worker(args: tuple[Path, Path, dict]) -> list[dict]:
     """Worker function for parallel file linting.
 
@@ -186,7 +215,8 @@ def _lint_file_worker(args: tuple[Path, Path, dict]) -> list[dict]:
         violations = orchestrator.lint_file(file_path)
         # Convert to dicts for pickling
         return [v.to_dict() for v in violations]
-    except Exception:
+    except Exception as exc:
+        _verif_tap("worker", "", file_path, exc)
         logger.exception("Worker error processing file: %s", file_path)
         return []
 
@@ -359,15 +389,17 @@ class Orchestrator:  # thailint: ignore[srp]
         """Safely check a rule, returning empty list on error."""
         try:
             return rule.check(context)
-        except UnicodeError:
+        except UnicodeError as exc:
             # UnicodeError is a ValueError, but it is a property of the file (e.g. a name with
             # undecodable bytes), not a configuration error: isolate it like any rule failure
+            _verif_tap("rule", rule.rule_id, context.file_path, exc)
             logger.exception("Rule %s failed on %s", rule.rule_id, context.file_path)
             return []
         except ValueError:
             # Re-raise configuration validation errors (these are user-facing)
             raise
-        except Exception:
+        except Exception as exc:
+            _verif_tap("rule", rule.rule_id, context.file_path, exc)
             logger.exception("Rule %s failed on %s", rule.rule_id, context.file_path)
             return []
 
@@ -443,7 +475,8 @@ class Orchestrator:  # thailint: ignore[srp]
         """Extract violations from a completed future, handling errors."""
         try:
             return [Violation.from_dict(d) for d in future.result()]
-        except Exception:
+        except Exception as exc:
+            _verif_tap("future", "", "", exc)
             logger.exception("Error extracting violations from worker future")
             return []
 
